@@ -8,7 +8,6 @@ import SquidModel.Properties.C16
 #print axioms SquidModel.C16.rock_stale_slot_splice_counterexample_2
 #print axioms SquidModel.C16.rock_torn_last_slot_counterexample
 #print axioms SquidModel.C16.ufs_post_crash_hit_was_complete_pre_crash
+#print axioms SquidModel.C16.ufs_post_crash_hit_from_consistent_state
 #print axioms SquidModel.C16.ufs_crash_prefix_allowed
-#print axioms SquidModel.C16.wfRun_snoc
-#print axioms SquidModel.C16.wfStep_shorter_append
 #print axioms SquidModel.C16.ufs_torn_append_allowed
